@@ -277,7 +277,7 @@ func (t *T) Fail(key, format string, args ...any) {
 // Step marks the start of one sub-step of a batched case. In journal mode (used to attribute a fatal crash of the worker)
 // the sub-step description is written out before the step runs, so that the crash report names the exact input.
 func (t *T) Step(note func() string) {
-	if t.c.journal {
+	if t.c.journal && note != nil {
 		t.c.emit(msg{T: "J", I: t.c.curIdx.Load(), C: t.class, D: safeDesc(t.desc) + " :: " + safeDesc(note)})
 	}
 	t.c.curStart.Store(time.Now().UnixNano())
